@@ -432,6 +432,45 @@ func (Engine) Generate(prop string, r *kit.Rand, tier string) *kit.Scenario[Conf
 	}
 	var cached []Op // C07: Data ops issued as part of a fetch (probably cached)
 	for i := 0; i < nops; i++ {
+		if prop == "C02" && len(routes) > 0 && len(c.Faces) >= 3 && r.Chance(0.04) {
+			// the life cycle of one dead-nonce record: a nonce is recorded (a retransmission supersedes it, its entry
+			// expires), leaves the list after one lifetime, is used again and forwarded, recorded again when that
+			// Interest is satisfied - and then probed around the boundaries of the second recording
+			rt := kit.Pick(r, routes)
+			name := strings.TrimSuffix(rt.Prefix, "/") + "/" + kit.Pick(r, comps)
+			var down []uint64
+			for _, f := range c.Faces {
+				if f.ID != rt.Face {
+					down = append(down, f.ID)
+				}
+			}
+			if len(down) >= 2 {
+				life := kit.Pick(r, []int{100, 300, 600, 1500})
+				g.nonces++
+				n1 := g.nonces
+				g.nonces++
+				n2 := g.nonces
+				a, b := down[0], down[1]
+				mk := func(face uint64, nonce int) Op {
+					in := g.interest()
+					in.Hop, in.Hint, in.NextHop, in.CBP, in.MBF, in.Token = nil, nil, 0, false, true, ""
+					in.Name, in.Face, in.Nonce, in.LifeMs = name, face, nonce, life
+					return in
+				}
+				zero := 0
+				sc.Ops = append(sc.Ops, mk(a, n1), Op{Op: "advance", Ms: r.Range(1, 60)}, mk(a, n2),
+					Op{Op: "advance", Ms: life + kit.Pick(r, []int{120, 200, 400})},
+					Op{Op: "advance", Ms: c.DnlMs + kit.Pick(r, []int{-200, 0, 150, 300})},
+					mk(b, n1), Op{Op: "advance", Ms: r.Range(1, 30)},
+					Op{Op: "data", Face: rt.Face, Name: name, FreshMs: &zero},
+					Op{Op: "advance", Ms: kit.Pick(r, []int{1, 50, c.DnlMs / 2, c.DnlMs - life - 100, c.DnlMs - 150, c.DnlMs - 2, c.DnlMs + 150})})
+				if sc.Ops[len(sc.Ops)-1].Ms < 0 {
+					sc.Ops[len(sc.Ops)-1].Ms = 1
+				}
+				sc.Ops = append(sc.Ops, mk(kit.Pick(r, down), n1))
+				continue
+			}
+		}
 		if prop == "C07" && r.Chance(0.45) {
 			// cache-centred traffic: fetch a name (Interest, then its Data from another face) so that the packet
 			// is admitted, or look a probably-cached name up again around its freshness boundary
